@@ -3,6 +3,7 @@ import Csvq.Model.Proto
 import Csvq.Model.Escape
 import Csvq.Model.Scanner
 import Csvq.Model.UnaryPrint
+import Csvq.Model.OpExpr
 namespace Csvq.Drive
 open Csvq Csvq.Proto Csvq.Esc Csvq.Scan Csvq.UPrint
 
@@ -75,6 +76,50 @@ def parseUExpr : List String → Option UExpr
       if op = "N" then some (.neg e) else if op = "P" then some (.pos e)
       else if op = "B" then some (.bang e) else if op = "R" then some (.paren e) else none
 
+/-! operator expressions: words of the op line <-> tokens of the model (table regenerated from parser.y) -/
+
+open Csvq.OpExpr Csvq.Gen.Precedence in
+def opWords : List (String × Tok Term) := [
+  ("(", .lpar), (")", .rpar), ("OR", .sym .OR 0), ("AND", .sym .AND 0), ("NOT", .sym .NOT 0), ("=", .sym .c_eq 0),
+  ("==", .sym .COMPARISON_OP 1), ("<", .sym .COMPARISON_OP 2), ("<=", .sym .COMPARISON_OP 3), (">", .sym .COMPARISON_OP 4),
+  (">=", .sym .COMPARISON_OP 5), ("<>", .sym .COMPARISON_OP 6), ("!=", .sym .COMPARISON_OP 7), ("LIKE", .sym .LIKE 0),
+  ("||", .sym .STRING_OP 0), ("+", .sym .c_plus 0), ("-", .sym .c_minus 0), ("*", .sym .c_star 0), ("/", .sym .c_slash 0),
+  ("%", .sym .c_percent 0), ("!", .sym .c_bang 0), ("IS", .sym .IS 0),
+  ("NULL", .lit 0), ("TRUE", .lit 1), ("FALSE", .lit 2), ("UNKNOWN", .lit 3)]
+
+open Csvq.OpExpr Csvq.Gen.Precedence in
+def wordToTok (w : String) : Option (Tok Term) :=
+  match opWords.find? (fun p => p.1 = w) with
+  | some (_, t) => some t
+  | none =>
+    if w.front = 'x' then (w.drop 1).toString.toNat?.map (fun n => .atom (2 * n))
+    else w.toNat?.map (fun n => .atom (2 * n + 1))
+
+open Csvq.OpExpr Csvq.Gen.Precedence in
+def tokToWord (t : Tok Term) : String :=
+  match t with
+  | .atom n => if n % 2 = 0 then "x" ++ toString (n / 2) else toString (n / 2)
+  | t => match opWords.find? (fun p => p.2 = t) with
+    | some (w, _) => w
+    | none => "?"
+
+open Csvq.OpExpr Csvq.Gen.Precedence in
+def showShape : Expr Term → String
+  | .atom n => tokToWord (.atom n)
+  | .paren e => "P[" ++ showShape e ++ "]"
+  | .pre t v e => (match t with | .c_minus => "u-" | .c_plus => "u+" | _ => tokToWord (.sym t v)) ++ "[" ++ showShape e ++ "]"
+  | .bin l t v r => tokToWord (.sym t v) ++ "[" ++ showShape l ++ "," ++ showShape r ++ "]"
+  | .post e _ neg w => (if neg then "ISNOT[" else "IS[") ++ showShape e ++ "," ++ tokToWord (.lit w) ++ "]"
+
+open Csvq.OpExpr Csvq.Gen.Precedence in
+def opx (words : List String) : String :=
+  match words.mapM wordToTok with
+  | none => "bad-op"
+  | some ts =>
+    match parse genTable ts with
+    | none => "ERR"
+    | some e => showShape e ++ " " ++ String.intercalate "," ((print genTable e).map tokToWord)
+
 def c18 (cmd : String) (args : List String) : String :=
   let bad := "bad-op"
   match cmd, args with
@@ -94,6 +139,7 @@ def c18 (cmd : String) (args : List String) : String :=
     match parseMode m, unhexChars s with
     | some m, some s => showResult (scan poolClasses m s)
     | _, _ => bad
+  | "opx", l => opx l
   | "unary", l =>
     match parseUExpr l with
     | some e => hexChars e.print ++ " " ++ (if hasCommentOpener e.print then "1" else "0")
